@@ -271,9 +271,14 @@ structure ReaderParams where
   wait groups and `config.Stderr`): it reads the pipe from the moment it is started, also while `Start` still holds the
   client lock waiting for the handshake line -/
   readsFromStart : Bool
+  /-- the stderr reader is counted in `pipesWaitGroup` (`Add(1)` before it is started in `Start`, `Done()` deferred in
+  `logStderr`): the exit watcher calls `runner.Wait()` — which closes the host's ends of the pipes — only after the
+  reader has reached the end of the stream -/
+  waitedBeforeProcWait : Bool
   deriving DecidableEq, Repr
 
-def ReaderParams.Good (R : ReaderParams) : Prop := R.endsOnlyOnReadError = true ∧ R.readsFromStart = true
+def ReaderParams.Good (R : ReaderParams) : Prop :=
+  R.endsOnlyOnReadError = true ∧ R.readsFromStart = true ∧ R.waitedBeforeProcWait = true
 
 instance (R : ReaderParams) : Decidable R.Good := by unfold ReaderParams.Good; exact inferInstance
 
@@ -288,5 +293,9 @@ def stderrTaken (R : ReaderParams) (sinkFails : Nat → Bool) : Nat → Nat → 
 /-- lines of stderr written BEFORE the handshake line that the host takes while `Start` is still waiting for that line
 (a reader that first waits for the client lock takes none: the plugin blocks on its stderr and never gets to print the line) -/
 def stderrTakenDuringStart (R : ReaderParams) (lines : Nat) : Nat := if R.readsFromStart then lines else 0
+
+/-- of the `unread` lines that are still in the stderr pipe when the plugin process exits (its last words), how many the host
+still takes: all of them when the pipe is closed only after the reader is done, none when `runner.Wait` closes it first -/
+def stderrTakenAfterExit (R : ReaderParams) (unread : Nat) : Nat := if R.waitedBeforeProcWait then unread else 0
 
 end GoPlugin.LogLine
